@@ -275,6 +275,17 @@ impl C15 {
                 }
             }
         }
+        // built-in kinds: "the typed view's fields alias the tag's bytes" — run the
+        // kind's accessors on the standalone tag; every slice/str they hand out
+        // must lie inside the tag (M2) and is touched (M3)
+        if t >= 7 + 2 * NDST {
+            let min = crate::spec::sized_view_size(id).unwrap_or(0);
+            let reg = Region::new_slack(ctx.placement, &img, min);
+            let opts = crate::exercise::Opts { debug: false, debug_whole: false };
+            let mut tr = crate::exercise::Tr::new(false, false);
+            crate::exercise::standalone(ctx, &reg, &mut tr, &opts, &img);
+            ctx.eval();
+        }
         ctx.nontrivial(mix2(t as u64, size as u64));
         if ctx.want_sample() && size == 40 && t % 9 == 0 {
             ctx.sample(desc("(sample)".into()));
